@@ -111,21 +111,49 @@ Outside(chain, o) == SelectSeq(chain, LAMBDA e : e.lvl >= o)
 
 (* ---- sentence 3: palette ---- *)
 \* entry: [name, alias (BOOLEAN), like, mono <<flags>>, fg <<colour, <<flags>>>>, bg colour,
-\*         hasfh, fgh <<<<colour, <<flags>>>> at 88, at 256, at 2^24>>, hasbh, bgh <<colour at 88, 256, 2^24>>, largeh]
+\*         hasfh, fgh <<<<colour, <<flags>>>> at 88, at 256, at 2^24>>, hasbh, bgh <<colour at 88, 256, 2^24>>, largeh,
+\*         fghc, bghc: the high colours as written, when they are hexadecimal RGB (see below)]
 \* colours: -1 default, 0..15 basic, 1000+n indexed, 2^24+rgb true colour (as Terminal.tla)
 SeqSet(s) == {s[j] : j \in 1..Len(s)}
 TrueDepth == 16777216
 DefaultP == [fg |-> -1, bg |-> -1, fl |-> {}]
 HighIx(depth) == IF depth = 88 THEN 1 ELSE IF depth = 256 THEN 2 ELSE 3
 BasicPen(e) == [fg |-> e.fg[1], bg |-> e.bg, fl |-> SeqSet(e.fg[2])]
+
+\* High colours written as hexadecimal RGB, resolved here (not by the harness).  A colour description is
+\*   [k |-> "n"]                      a name or colour number: the harness' table gives its number per depth
+\*   [k |-> "x6", r, g, b \in 0..255] '#rrggbb'  ("RRGGBB hex color code")
+\*   [k |-> "x3", r, g, b \in 0..15]  '#rgb'     ("'#fcc' (100% red, 80% green, 80% blue)": one hex digit = sixteenths)
+\* 2^24 colours show '#rrggbb' exactly.  The 88- and 256-colour terminals have a colour cube with CubeSteps(depth) levels per
+\* component, numbered 16 + (r * n + g) * n + b: "closest colors will be found".  '#rgb' names the level d/15 of full
+\* intensity (d * 17 of 255); with fewer than 2^24 colours '#rrggbb' is read as the '#rgb' made of the leading digit of each
+\* component.  On a 2^24-colour terminal '#rgb' is shown as the RGB value of the 256-colour cube colour it names.
+NumC == [k |-> "n", r |-> 0, g |-> 0, b |-> 0]
+X6(r, g, b) == [k |-> "x6", r |-> r, g |-> g, b |-> b]
+X3(r, g, b) == [k |-> "x3", r |-> r, g |-> g, b |-> b]
+CubeSteps(depth) == IF depth = 88 THEN <<0, 139, 205, 255>> ELSE <<0, 95, 135, 175, 215, 255>>     \* xterm's 88colres.h / 256colres.h
+Dist(a, b) == IF a >= b THEN a - b ELSE b - a
+Closest(steps, v) == CHOOSE i \in 1..Len(steps) : \A j \in 1..Len(steps) : Dist(steps[i], v) <= Dist(steps[j], v)
+LeadDigit(c, comp) == IF c.k = "x6" THEN comp \div 16 ELSE comp
+CubeLevel(c, comp, depth) == Closest(CubeSteps(depth), 17 * LeadDigit(c, comp)) - 1              \* 0-based level of one component
+CubeColour(c, depth) ==
+  LET n == Len(CubeSteps(depth)) IN
+  1000 + 16 + (CubeLevel(c, c.r, depth) * n + CubeLevel(c, c.g, depth)) * n + CubeLevel(c, c.b, depth)
+HexColourAt(c, depth) ==
+  IF depth # TrueDepth THEN CubeColour(c, depth)
+  ELSE IF c.k = "x6" THEN TrueDepth + c.r * 65536 + c.g * 256 + c.b
+  ELSE LET s == CubeSteps(256) IN
+       TrueDepth + s[CubeLevel(c, c.r, 256) + 1] * 65536 + s[CubeLevel(c, c.g, 256) + 1] * 256 + s[CubeLevel(c, c.b, 256) + 1]
+HighColour(c, n, depth) == IF c.k = "n" THEN n ELSE HexColourAt(c, depth)
+
 PenFor(e, depth) ==
   IF depth = 1 THEN [fg |-> -1, bg |-> -1, fl |-> SeqSet(e.mono)]                  \* monochrome: settings only
   ELSE IF depth = 16 THEN BasicPen(e)
   ELSE IF depth = 88 /\ e.largeh THEN BasicPen(e)        \* colour numbers above 15 differ at 88 colours: 16-colour values are used
   ELSE LET k == HighIx(depth) IN                          \* "None = use foreground / background parameter value"
-       [fg |-> IF e.hasfh THEN e.fgh[k][1] ELSE e.fg[1],
+       [fg |-> IF e.hasfh THEN HighColour(e.fghc, e.fgh[k][1], depth) ELSE e.fg[1],
         fl |-> IF e.hasfh THEN SeqSet(e.fgh[k][2]) ELSE SeqSet(e.fg[2]),
-        bg |-> IF e.hasbh THEN e.bgh[k] ELSE e.bg]
+        bg |-> IF e.hasbh THEN HighColour(e.bghc, e.bgh[k], depth) ELSE e.bg]
 
 \* (name, like_other_name) copies the settings of an entry that appears before it; the last registration of a name counts
 RECURSIVE EntryOf(_, _, _)
